@@ -23,6 +23,8 @@
     * `basicExecute_render`, `lexLine_render` : C02 at string level through the real entry point — `basic_execute` with the text's
       length as fuel returns the textbook value of ANY tree on ANY admissible spacing of its pieces (`SCP.Lex.tree_line_eval` was
       stated for the exact step count); a trailing comment changes nothing
+    * `step_up`, `step_down` : one step of `calculate_unit` with the REAL executor (`calculateUnit "." ""`, not an abstract `ex`):
+      the amount times the factor of the item's up / down code
     * `readsBack_rat`, `litOK_of_text` : the hypothesis in the decidable form the driver evaluates (`SC.readsBackB`)
 
   What stays a hypothesis: that the amount's printed text reads back as the amount (`f64::to_string` / `str::parse`
@@ -459,5 +461,35 @@ theorem lexLine_render (dec thou : String) (ps : List (Nat × Piece F)) (t : Nat
 
 /-- non-vacuity: a line with uneven gaps, a parenthesis and a sign glued to a literal -/
 example : basicExecute "," "." "12 *( 3,5+-4)".toList = some (-6 : Rat) := by decide +kernel
+
+/-! ### one step of the walk with the real executor -/
+
+/-- ONE STEP OF THE WALK WITH THE REAL EXECUTOR: converting to the next higher unit of a configured family runs the
+    item's up code through `execute_code`, and yields the amount times the factor of that code -/
+theorem step_up (items : List (UnitItem Rat)) (p : Nat) (a b : UnitItem Rat) (n d : Nat)
+    (ha : findItem? items p = some a) (hb : findItem? items (p + 1) = some b) (hbi : b.index = p + 1)
+    (hcode : assoc? Gen.codeFactors a.up = some (n, d)) (v : Rat) (hv : LitOK "." "" (amountText "." v) v) :
+    calculateUnit "." "" items v p (p + 1) = some (v * SCP.C12.mult a.up) := by
+  unfold calculateUnit calculateUnitWith
+  have hne : ¬ (p = p + 1) := by omega
+  have hgt : ¬ (p > p + 1) := by omega
+  simp only [hne, if_false, ha, hgt, decide_false, Bool.not_false, if_true]
+  rw [calculateUnitWith.loop]
+  simp only [if_true, gen_codes_multiply a.up n d hcode v hv, hb, hbi]
+
+/-- … and to the next lower unit its down code -/
+theorem step_down (items : List (UnitItem Rat)) (p : Nat) (a b : UnitItem Rat) (n d : Nat)
+    (ha : findItem? items (p + 1) = some a) (hb : findItem? items p = some b) (hbi : b.index = p)
+    (hcode : assoc? Gen.codeFactors a.down = some (n, d)) (v : Rat) (hv : LitOK "." "" (amountText "." v) v) :
+    calculateUnit "." "" items v (p + 1) p = some (v * SCP.C12.mult a.down) := by
+  unfold calculateUnit calculateUnitWith
+  have hne : ¬ (p + 1 = p) := by omega
+  have hgt : p + 1 > p := by omega
+  simp only [hne, if_false, ha, hgt, decide_true, Bool.not_true, Bool.false_eq_true, Nat.add_one_ne_zero, Nat.add_sub_cancel]
+  rw [calculateUnitWith.loop]
+  simp only [Bool.false_eq_true, if_false, gen_codes_multiply a.down n d hcode v hv, hb, hbi, if_true]
+
+/-- non-vacuity on the configured inch family: 5/2 ft is 30 in, through the real executor -/
+example : calculateUnit "." "" ((assoc? (Gen.units Rat) "imperial-unit-length").getD []) (5 / 2 : Rat) 2 1 = some 30 := by decide +kernel
 
 end SCP.C12Exec
